@@ -213,17 +213,28 @@ Theorem rpc_roundtrip_path :
       path_from_rpc std_parse sa_parse (path_to_rpc sa_show p) (sp_src p) (sp_dst p) = Ok p.
 Proof. intros. eapply path_roundtrip; eassumption. Qed.
 Print Assumptions rpc_roundtrip_path.
+(** ... and every value [try_from_rpc] produces from a canonical message (expiration and
+    latencies within i64 and non-negative expiration, link types that survive the [as u8] of
+    [LinkType::from_i32], u32 hop counts) HAS an RPC form: together with [rpc_roundtrip_path],
+    a path received over RPC converts to RPC and back to itself. *)
+Theorem received_path_roundtrips :
+  forall (SA : Type) (std_parse : bytes -> option bytes) (sa_parse : bytes -> option SA)
+         (sa_show : SA -> bytes) (std_ok : bytes -> bool),
+    (forall a, sa_parse (sa_show a) = Some a) ->
+    (forall raw, std_ok raw = true <-> std_parse raw = Some []) ->
+    forall r src dst (p : spath SA),
+      path_from_rpc std_parse sa_parse r src dst = Ok p -> rpath_canonical r = true ->
+      path_repr std_ok p = true /\
+      path_from_rpc std_parse sa_parse (path_to_rpc sa_show p) (sp_src p) (sp_dst p) = Ok p.
+Proof.
+  intros SA std_parse sa_parse sa_show std_ok Hsa Hstd r src dst p H Hc.
+  assert (path_repr std_ok p = true) as Hr
+    by (eapply path_from_rpc_repr; [intros raw; apply Hstd|exact H|exact Hc]).
+  split; [exact Hr|]. eapply path_roundtrip; [exact Hsa|intros raw; apply Hstd|exact Hr].
+Qed.
+Print Assumptions received_path_roundtrips.
 (** non-vacuity: a four-interface path with latencies, bandwidths, geo data, link types,
     internal hops, notes, EPIC authenticators and a next hop is representable and comes back *)
-Definition example_path : spath bytes :=
-  mkPath 281474976710672 281474976710673 [0; 0; 32; 0]
-    (Some (mkPM 1800000000 1400
-       (Some [mkIf 1 1 (Some (mkGeo 1111359488 1091043328 (Some [120]))) (Some (0, 5000)) (Some 100) (Some (LEgress LtDirect));
-              mkIf 2 2 None None None (Some (LIngress 3));
-              mkIf 2 3 None (Some (1, 0)) None (Some (LEgress (LtUnknown 200)));
-              mkIf 3 4 None None None None])
-       (Some ([1; 2], [])) (Some [[97]; []; [98]])))
-    (Some [49; 48]).
 Example rpc_roundtrip_path_instance :
   path_repr (fun _ => true) example_path = true /\
   path_from_rpc (fun _ => Some []) (fun a => Some a) (path_to_rpc (fun a => a) example_path)
